@@ -195,7 +195,7 @@ PROPS["C04"] = {
     "quick": {"runs": 20000, "budget_s": 300},
     "thorough": {"runs": 400000, "budget_s": 1700, "shrink_runs": 300, "shrink_timeout": 600},
     "rule": "Each run: a source store of 10 s interval (day calculator, segment 2000-01-01 / 03 / 31, families = hours 0, 5, 23) and target stores of 5 min (month calculator) and/or 1 h (year calculator) under the directory names the rollup code parses, all in one store manager. 6-15 operations: flush a generated file (as C03, slots 0..359) into a source family, ForceRollup, two overlapping rollup triggers, background tick (compaction + rollup), compaction of a source family, clean close+reopen; optionally process death at a file-system seam operation during rollup/tick operations followed by restart and rollup again. Whenever no rollup entry is pending, every target family is decoded and compared with the aggregate of exactly those source slots whose timestamps fall into each target slot (computed from timestamps, independently of the calculators); sum fields expose double application as 2x. One history in twelve contains a rollup whose process dies exactly between the commit in a target family and the commit in the source family, optionally more data for the same source family, and the rollup again (without the settling rollup that otherwise follows a restart).",
-    "fault_kinds": ["crash@write", "crash@sync", "overlapping-rollup-trigger", "close-reopen", "crash-between-target-and-source-commit"],
+    "fault_kinds": ["crash@write", "crash@sync", "overlapping-rollup-trigger", "parallel-rollup-trigger", "close-reopen", "crash-between-target-and-source-commit"],
     "real": ["kv/family_rollup.go, kv/version rollup bookkeeping, kv flusher (rollup registration)", "metricsdata merger in rollup mode + aggregation down sampling", "pkg/timeutil calculators", "kv store manager"],
     "stub": [],
     "assumptions": COMMON_ASSUME + ["process time zone is UTC (the supervisor sets TZ=UTC)"],
